@@ -21,6 +21,8 @@ CONSTANTS Chains,      \* set of chains (sequences of stage records) to enumerat
           MaxIllegal,  \* how many notifications the source may emit after its own terminal
           Cuts,        \* BOOLEAN: also enumerate an Unsubscribe at every position
           MaxSubs,     \* how many times the SAME pipeline object is subscribed (C12: a re-subscription starts from fresh state)
+          SrcBase,     \* markers of the context the SOURCE emits with: {"sub"} = derived from the subscription context (cold source);
+                       \* {"hot"} = a context of the producer's own (hot source fed from elsewhere): what the operators attach must still arrive
           Faults       \* set of fault plans [stage, at, kind]; stage 0 = no fault, -1 = the source's subscribe function (C07)
 
 VARIABLES chain, sts, phase, srcSub, srcTorn, srcDone, unsub, closed, log, nitems, nillegal, h, fault, nsubs, prev
@@ -138,7 +140,7 @@ Unsub ==
   /\ UNCHANGED <<chain, phase, srcSub, srcDone, log, nitems, nillegal, fault, nsubs, prev>>
 
 NextNotif ==
-  {N(v, SubCtx \cup {ItemMark(nitems)}) : v \in Vals} \cup {E(1, SubCtx \cup {"t"}), C(SubCtx \cup {"t"})}
+  {N(v, SrcBase \cup {ItemMark(nitems)}) : v \in Vals} \cup {E(1, SrcBase \cup {"t"}), C(SrcBase \cup {"t"})}
 
 Next == Subscribe \/ Unsub \/ \E n \in NextNotif : Push(n)
 
@@ -160,7 +162,7 @@ ClosedImpliesTorn == closed => ((srcSub = 1 /\ fault.stage # -1) => srcTorn = 1)
 TypeOK == srcSub \in 0..1 /\ srcTorn \in 0..1 /\ srcTorn <= srcSub
 
 \* the generator: every maximal behaviour is printed as one JSON case
-EmitCase == Done => PrintT(ToJson([chain |-> chain, steps |-> h, fault |-> fault, nsubs |-> nsubs,
+EmitCase == Done => PrintT(ToJson([chain |-> chain, steps |-> h, fault |-> fault, nsubs |-> nsubs, hot |-> ("hot" \in SrcBase),
                                    cbn |-> [i \in 1..Len(chain) |-> sts[i].cb]]))
 \* C07: once a fault surfaced nothing follows it (Grammar) and it surfaced exactly once
 NoFault == [stage |-> 0, at |-> 0, kind |-> "none"]
